@@ -113,6 +113,7 @@ namespace Vocab
 def gMap (c : Nat) : Row → Option Row := fun r => some (mapId c r)
 def gFilter (m r : Nat) : Row → Option Row := fun x => if keepB m r x then some x else none
 def overlapWhole (w : Nat) : List Row → List Row := fun x => x.map (overlapId w x)
+def overlapWhole2 (wl wr : Nat) : List Row → List Row := fun x => x.map (overlapId2 wl wr x)
 def exhaustWhole (c : Nat) : List Row → List Row := fun x => x.map (exhaustId c x.length)
 
 theorem gMap_ip (c : Nat) : IntervalPreserving (gMap c) := by
@@ -154,6 +155,7 @@ def rawKernelOf : VKind → List String → Kernel
   | .pairfirst c, outs => firstKernel (gMap c) (out0 outs)
   | .loop, outs => loopKernel loopId (out0 outs)
   | .overlap w, _ => overlapKernel (overlapWhole w) (w, w)
+  | .overlap2 wl wr, _ => overlapKernel (overlapWhole2 wl wr) (wl, wr)
   | .downchunk c, outs => downKernel (onePiece (gMap c) (out0 outs)) (gMap c)
   | .exhaust c, outs => exhaustKernel (exhaustWhole c) (out0 outs)
 
@@ -169,6 +171,7 @@ def kernelOf (k : VKind) (outs : List String) : Kernel := restamp (labelsOf k ou
 
 def isOverlap : VKind → Bool
   | .overlap _ => true
+  | .overlap2 _ _ => true
   | _ => false
 
 theorem rawKernelOf_hom (k : VKind) (outs : List String) (h : isOverlap k = false) : ChunkHom (rawKernelOf k outs) := by
@@ -180,6 +183,7 @@ theorem rawKernelOf_hom (k : VKind) (outs : List String) (h : isOverlap k = fals
   | pairfirst c => exact firstKernel_hom (gMap_ip c) _
   | loop => exact loopKernel_hom loopId_kbi _
   | overlap w => simp [isOverlap] at h
+  | overlap2 wl wr => simp [isOverlap] at h
   | downchunk c => exact downKernel_hom (subOK_onePiece (gMap_ip c) _)
   | exhaust c =>
     exact exhaustKernel_hom (rangeLaw_of_map (f := fun all r => exhaustId c all.length r)
@@ -193,6 +197,10 @@ theorem kernelOf_hom (k : VKind) (outs : List String) (h : isOverlap k = false) 
 theorem kernelOf_hom_overlap (w : Nat) (outs : List String)
     (h : StreamSpec (Overlap.runOverlap (overlapWhole w) (w, w)) (overlapWhole w)) :
     ChunkHom (kernelOf (.overlap w) outs) := restamp_hom _ (streamKernel_hom h)
+
+theorem kernelOf_hom_overlap2 (wl wr : Nat) (outs : List String)
+    (h : StreamSpec (Overlap.runOverlap (overlapWhole2 wl wr) (wl, wr)) (overlapWhole2 wl wr)) :
+    ChunkHom (kernelOf (.overlap2 wl wr) outs) := restamp_hom _ (streamKernel_hom h)
 
 /-- the whole-run meaning of the kernels is the function the driver evaluates -/
 theorem kernelOf_whole (k : VKind) (outs : List String) (ins : List (List Row)) :
@@ -234,6 +242,11 @@ theorem kernelOf_whole (k : VKind) (outs : List String) (ins : List (List Row)) 
     | [_] => rfl
     | _ :: _ :: _ :: _ => rfl
   | overlap w =>
+    match ins with
+    | [x] => rfl
+    | [] => rfl
+    | _ :: _ :: _ => rfl
+  | overlap2 wl wr =>
     match ins with
     | [x] => rfl
     | [] => rfl
